@@ -137,6 +137,36 @@ Section Redeliver.
     apply source_of_dest in Es. destruct Hx as [<-|[]]. exists t, m. split; [exact Es | reflexivity].
   Qed.
 
+  (** the model's redelivery history passes the acceptor that judges implementation histories *)
+  Lemma redeliver_monitor_accepted c src obj beh :
+    (forall s z, atoi s = Some z -> in64 z) -> (forall z, in64 z -> atoi (itoa z) = Some z) ->
+    wf_msg obj -> (forall t m, dest c src (gochan_copy obj) = Some (t, m) -> wf_msg m) ->
+    redelivery_monitor dec atoi rk c src obj beh
+      (fst (redeliver FreshCopy c src obj beh)) (snd (redeliver FreshCopy c src obj beh)) = true.
+  Proof.
+    intros Hr Hi Hwf Hd. unfold redelivery_monitor.
+    assert (H1 : attempts_ok dec atoi rk c src obj beh (fst (redeliver FreshCopy c src obj beh)) = true).
+    { induction beh as [|[cd pb] rest IH]; simpl; [reflexivity|].
+      assert (Hm : relay_monitor dec atoi rk c (Inp src (gochan_copy obj) cd pb)
+                     (snd (run c (Inp src (gochan_copy obj) cd pb))) (fst (run c (Inp src (gochan_copy obj) cd pb))) = true).
+      { apply run_monitor; try assumption. intros t m Hs. apply (Hd t m). eapply source_of_dest. exact Hs. }
+      destruct (fst (run c (Inp src (gochan_copy obj) cd pb))) eqn:E; simpl.
+      2: { rewrite ?E, Hm. reflexivity. }
+      all: destruct (Redelivery.redeliver dec atoi itoa rk FreshCopy c src obj rest) as [rs o];
+        simpl in *; rewrite ?E, Hm; exact IH. }
+    rewrite H1. simpl.
+    assert (H2 : forallb (fun r : settle * list ev => negb (settle_eqb (fst r) Acked))
+                   (removelast (fst (redeliver FreshCopy c src obj beh))) = true).
+    { apply forallb_forall. intros r Hin.
+      pose proof (redeliver_ack_only_last FreshCopy c src beh obj) as HF. rewrite Forall_forall in HF.
+      rewrite not_acked_eqb by (apply HF; exact Hin). reflexivity. }
+    rewrite H2. simpl.
+    destruct (redeliver_accepted_at_most_once FreshCopy c src beh obj) as [H3 _].
+    apply Nat.leb_le in H3. rewrite H3. simpl.
+    rewrite redeliver_fresh_original_untouched. unfold same_content. rewrite !N.eqb_refl. simpl.
+    now apply meta_eqb_refl.
+  Qed.
+
   (** *** requeuer: the counter *)
   Lemma counter_copy m : counter (mmeta (gochan_copy m)) = counter (mmeta m).
   Proof. reflexivity. Qed.
